@@ -33,7 +33,10 @@ func c12Scenarios(thorough bool) []*explore.Scenario {
 				if !thorough && (i*4+j)%3 != 0 {
 					continue
 				}
+				// once at the granularity of every file-system call on segment files (large space: completed up to a preemption
+				// bound), once at directory-operation granularity (completes)
 				scs = append(scs, &explore.Scenario{Name: fmt.Sprintf("B2-%s-%s-%d%d", x.b, x.c, i, j), Base: x.b, Cfg: x.c, Threads: []explore.ThreadProg{bk, {w1, w2}}, Bound: -1, FSYield: true, YieldSeg: true, Record: true})
+				scs = append(scs, &explore.Scenario{Name: fmt.Sprintf("B2d-%s-%s-%d%d", x.b, x.c, i, j), Base: x.b, Cfg: x.c, Threads: []explore.ThreadProg{bk, {w1, w2}}, Bound: -1, FSYield: true, YieldDirOnly: true, Record: true})
 			}
 		}
 	}
@@ -41,18 +44,18 @@ func c12Scenarios(thorough bool) []*explore.Scenario {
 	for _, x := range bcs[:4] {
 		for i, w := range L[:3] {
 			scs = append(scs, &explore.Scenario{Name: fmt.Sprintf("B3-%s-%s-%d", x.b, x.c, i), Base: x.b, Cfg: x.c,
-				Threads: []explore.ThreadProg{{op(explore.Put, "b"), op(explore.Backup, ""), op(explore.Put, "a")}, {w, op(explore.Put, "b")}}, Bound: -1, FSYield: true, YieldSeg: true, Record: true})
+				Threads: []explore.ThreadProg{{op(explore.Put, "b"), op(explore.Backup, ""), op(explore.Put, "a")}, {w, op(explore.Put, "b")}}, Bound: -1, FSYield: true, YieldDirOnly: true, Record: true})
 		}
 	}
 	// two writers / a writer and Compact next to the backup
 	for _, x := range []bc{{"E", "ROLL1"}, {"S2", "ROLL"}} {
 		for i, w1 := range L[:3] {
-			scs = append(scs, &explore.Scenario{Name: fmt.Sprintf("B4-%s-%s-%d", x.b, x.c, i), Base: x.b, Cfg: x.c, Threads: []explore.ThreadProg{bk, {w1}, {op(explore.Put, "b")}}, Bound: -1, FSYield: true, YieldSeg: true, Record: true})
+			scs = append(scs, &explore.Scenario{Name: fmt.Sprintf("B4-%s-%s-%d", x.b, x.c, i), Base: x.b, Cfg: x.c, Threads: []explore.ThreadProg{bk, {w1}, {op(explore.Put, "b")}}, Bound: -1, FSYield: true, YieldDirOnly: true, Record: true})
 			k2 := "e"
 			if x.b == "E" {
 				k2 = "d"
 			}
-			scs = append(scs, &explore.Scenario{Name: fmt.Sprintf("B5-%s-%s-%d", x.b, x.c, i), Base: x.b, Cfg: x.c, Threads: []explore.ThreadProg{bk, {w1, op(explore.Put, k2)}, {op(explore.Compact, "")}}, Bound: -1, FSYield: true, YieldSeg: true, Record: true})
+			scs = append(scs, &explore.Scenario{Name: fmt.Sprintf("B5-%s-%s-%d", x.b, x.c, i), Base: x.b, Cfg: x.c, Threads: []explore.ThreadProg{bk, {w1, op(explore.Put, k2)}, {op(explore.Compact, "")}}, Bound: -1, FSYield: true, YieldDirOnly: true, Record: true})
 		}
 	}
 	if thorough {
@@ -60,7 +63,7 @@ func c12Scenarios(thorough bool) []*explore.Scenario {
 			for i, w1 := range L[:3] {
 				for j, w2 := range L[:3] {
 					for k, w3 := range L[:3] {
-						scs = append(scs, &explore.Scenario{Name: fmt.Sprintf("B6-%s-%s-%d%d%d", x.b, x.c, i, j, k), Base: x.b, Cfg: x.c, Threads: []explore.ThreadProg{bk, {w1, w2, w3}}, Bound: -1, FSYield: true, YieldSeg: true, Record: true})
+						scs = append(scs, &explore.Scenario{Name: fmt.Sprintf("B6-%s-%s-%d%d%d", x.b, x.c, i, j, k), Base: x.b, Cfg: x.c, Threads: []explore.ThreadProg{bk, {w1, w2, w3}}, Bound: -1, FSYield: true, YieldDirOnly: true, Record: true})
 					}
 				}
 			}
